@@ -582,3 +582,62 @@ func directFromConversion(v ssa.Value, seen map[ssa.Value]bool) bool {
 	}
 	return false
 }
+
+// ruleSliceWindow (S-WINDOW): a window `x[lo:hi]` (lo not 0, no third index) cut from a slice that lives in a
+// struct field and handed on (returned, stored into a field or element) shares the backing array beyond hi: an
+// append to the window overwrites what the next window holds.  Reported for non-string slices in parser,
+// analyzer and workspace code - the data structures the extracted journal is made of.
+func ruleSliceWindow(c *Ctx) {
+	nSlices, nWindows := 0, 0
+	for _, f := range c.P.ModuleFuncs() {
+		for _, b := range f.Blocks {
+			for _, ins := range b.Instrs {
+				sl, ok := ins.(*ssa.Slice)
+				if !ok {
+					continue
+				}
+				if _, isSlice := sl.X.Type().Underlying().(*types.Slice); !isSlice {
+					continue
+				}
+				nSlices++
+				if sl.Max != nil || sl.High == nil || sl.Low == nil {
+					continue
+				}
+				if k, ok := sl.Low.(*ssa.Const); ok && k.Value != nil && k.Int64() == 0 {
+					continue
+				}
+				// the base lives in a struct field
+				ld, ok := sl.X.(*ssa.UnOp)
+				if !ok || ld.Op != token.MUL {
+					continue
+				}
+				if _, ok := ld.X.(*ssa.FieldAddr); !ok {
+					continue
+				}
+				// handed on: returned, or stored into a field / element
+				escapes := false
+				for _, r := range *sl.Referrers() {
+					switch u := r.(type) {
+					case *ssa.Return:
+						escapes = true
+					case *ssa.Store:
+						if u.Val == ssa.Value(sl) {
+							switch u.Addr.(type) {
+							case *ssa.FieldAddr, *ssa.IndexAddr:
+								escapes = true
+							}
+						}
+					}
+				}
+				if !escapes {
+					continue
+				}
+				nWindows++
+				c.finding("S-WINDOW", funcName(f), "window of a shared slice handed on without a capacity limit", sl.Pos(),
+					"a window x[lo:hi] of a slice kept in a struct field is returned or stored without a third index: it shares the backing array beyond hi, so an append to it overwrites the elements of the following window (use x[lo:hi:hi])")
+			}
+		}
+	}
+	c.census("S-WINDOW", "slice expressions on non-string slices in module code", nSlices, 5)
+	c.note("S-WINDOW: %d windows of field-held slices handed on without a capacity limit", nWindows)
+}
